@@ -118,6 +118,15 @@ SumW(items) == IF items = <<>> THEN 0 ELSE Head(items)[2] + SumW(Tail(items))
 (* the stack first re-checks the invariants of the behaviour it belongs to, then    *)
 (* its condition(s); the first one that changes the control flow wins.  At the top  *)
 (* the suspended take/wait completes with the invariant check of its behaviour.     *)
+(* Invariants are "not checked during time spent inside sub-behaviours: this allows sub-behaviours *)
+(* to break and restore invariants before they return".  So a do-for/until wrapper or a            *)
+(* try/interrupt statement whose running block is inside a sub-behaviour does not check them when   *)
+(* that block simply continues; it does when control comes back to the behaviour itself (limit       *)
+(* reached, a handler pre-empts).  Named as-implemented deviation (case field invimpl = 1,           *)
+(* KNOWN_FINDINGS invariant-checked-inside-sub-behaviour): runTryInterrupt re-checks the invariants   *)
+(* of its behaviour after every step, whatever runs under it.                                        *)
+SubAbove(st, p) == NearestBeh(st, Len(st)) # NearestBeh(st, p)
+CheckHere(q, c, p) == Cases[q].invimpl = 1 \/ ~SubAbove(c.st, p)
 RECURSIVE Walk(_, _, _, _)
 Walk(q, c, p, tt) ==
   IF c.sig # "run" THEN c
@@ -126,12 +135,12 @@ Walk(q, c, p, tt) ==
         ELSE IF InvOK(q, c.st, Len(c.st), tt) THEN c ELSE Sig(c, "guardinv"))
   ELSE LET f == c.st[p] IN
        IF f.k = "mod" THEN
-          IF ~InvOK(q, c.st, p, tt) THEN Sig(c, "guardinv")
+          IF CheckHere(q, c, p) /\ ~InvOK(q, c.st, p, tt) THEN Sig(c, "guardinv")
           ELSE IF (IF f.m = "for" THEN LimitReached(q, tt - f.start, f.n, f.u) ELSE Tab(q, f.c, tt))
                THEN AfterInvoke(q, [c EXCEPT !.st = SubSeq(c.st, 1, p - 1)], tt)   \* abort: sub-behaviours above are stopped
                ELSE Walk(q, c, p + 1, tt)
        ELSE IF f.k = "try" THEN
-          IF ~InvOK(q, c.st, p, tt) THEN Sig(c, "guardinv")
+          IF (CheckHere(q, c, p) \/ Select(q, f, tt) # f.act) /\ ~InvOK(q, c.st, p, tt) THEN Sig(c, "guardinv")
           ELSE LET b == Select(q, f, tt) IN
                IF b = f.act THEN Walk(q, c, p + 1, tt)
                ELSE \* pre-empt: save the running block's continuation, switch to block b
